@@ -52,7 +52,7 @@ CHECKS = {
             "Existing-node references follow the client contract (nodes of trees live after all returned commits; not in a transaction that also dereferences).",
             "DESIGN.md 4 C10", "pdbv"),
     "C17": ("exploration",
-            "exhaustive enumeration of the 384 column-option values for the metadata round trip + generated (stored, requested) option pairs with directory-snapshot equality + generated administration calls on generated databases (optionally crash images with pending logs) against the model, files re-parsed afterwards",
+            "exhaustive enumeration of the 384 column-option values for the metadata round trip + generated (stored, requested) option pairs with directory-snapshot equality (cleanly closed directories and directories left by an unclean stop, all three opening calls) + generated administration calls on generated databases (optionally crash images with pending logs) against the model, files re-parsed afterwards",
             "The option space of the round trip is enumerated completely; mismatching opens must fail and leave a byte-identical directory; admin calls are applied to generated multi-column databases incl. directories with unreplayed logs and every other column must observe exactly as before, the affected one empty and writable, with nothing of it left in the files.",
             "Requested options are valid (open asserts validity); 'as before' with pending logs = what a plain reopen of a copy shows.",
             "DESIGN.md 4 C17", "pdbv"),
@@ -82,7 +82,7 @@ CHECKS = {
             "Injector = the library's try_io! sites on the calling thread (stepping mode); reads are issued with the injector paused.",
             "DESIGN.md 4 C16", "pdbv"),
     "C18": ("exploration",
-            "model-based stateful PBT over actors (in-process handles and child processes): generated open / drop / SIGKILL / write scripts and barrier-released simultaneous opens on directories that need recovery; holder model + directory-snapshot equality",
+            "model-based stateful PBT over actors (in-process handles and child processes): generated open (per actor: open_or_create / open / open_read_only) / drop / SIGKILL / write scripts and barrier-released simultaneous opens on directories that need recovery; holder model + directory-snapshot equality",
             "Scripts over 2-4 actors of both kinds; the oracle is a one-holder model: open succeeds iff no holder, refusals are lock errors that change nothing on disk, a dropped or killed holder frees the directory, exactly one of several simultaneous opens wins.",
             "Advisory flock semantics of the host; holders run without background threads so refused opens can be compared against a quiescent snapshot.",
             "DESIGN.md 4 C18", "pdbv"),
@@ -97,8 +97,8 @@ CHECKS = {
             "The client holds the tree's read lock while committing insertions that reuse its nodes.",
             "DESIGN.md 4 C11", "pdbv"),
     "C15": ("exploration",
-            "generated-schedule testing with the REAL worker loops: proptest-generated client scripts (incl. bursts beyond the 16 MiB queue limit, shutdown at a generated moment) x seeded shuttle schedules (random + PCT); bounded-liveness oracle on the pipeline counters + shuttle's deadlock detection + persisted-data check",
-            "The four worker loops, the wait/notify protocol and the queue-full throttles run unmodified under generated schedules; a hang is either a detected deadlock (all threads blocked) or the counters not draining within a bounded number of observer steps while nothing else is called.",
+            "generated-schedule testing with the REAL worker loops: proptest-generated client scripts (incl. bursts beyond the 16 MiB queue limit, transactions beyond the 128 MiB log-queue limit, sync_data=false with more than the 16 kept log files, shutdown at a generated moment) x seeded shuttle schedules (random + PCT); bounded-liveness oracle on the pipeline counters + shuttle's deadlock detection + persisted-data check",
+            "The four worker loops, the wait/notify protocol and the queue-full throttles run unmodified under generated schedules; a hang is either a detected deadlock (all threads blocked) or the counters not draining within a bounded number of observer steps while nothing else is called (1M steps under the uniformly random scheduler, where every runnable worker gets its share; PCT schedules that exhaust shuttle's step limit are counted as unfair and skipped).",
             "Bounded liveness (cannot prove termination for unexplored schedules); scheduling controlled at lock/condvar operations; always_flush executions labelled separately.",
             "DESIGN.md 4 C15", "pdbv-shuttle"),
     "C12": ("fault_enumeration",
